@@ -1,7 +1,7 @@
 (* Properties/C13.v — Pipeline data operations have their documented effect and only that effect. *)
 From Coq Require Import List String Bool ZArith Arith.
 From YT Require Import Base.Str Base.KV Model.Doc Model.Dom Model.Builder Model.Codec Model.Merge Model.Patch
-  Model.Base64 Model.Analytics Model.K8s Model.Pipeline Model.PipeOps Proofs.PipeOpsProofs.
+  Model.Base64 Model.Analytics Model.K8s Model.Pipeline Model.PipeOps Model.YamlNode Proofs.PipeOpsProofs Proofs.YamlNodeProofs.
 Import ListNotations.
 Local Open Scope list_scope.
 
@@ -139,4 +139,28 @@ Example C13_template_file_ex :
   template_file_op (Some [PLit "x="; PVar "name"]) "t.tpl" "out.txt" (Some "sub"%string) data = TFWritten "x=inner" /\
   template_file_op (Some [PLit "x="; PVar "name"]) "t.tpl" "out.txt" (Some "name"%string) data = TFErr /\
   template_file_op None "t.tpl" "out.txt" None data = TFErr.
+Proof. vm_compute. repeat split; reflexivity. Qed.
+
+(* ---------- the YAML node decoder behind template(parseAs yaml) (dom.YamlNodeDecoder, as repaired): it terminates on every
+   tree the parser can build — aliases to anchors of the tree, also to an anchor that is still being converted; documents
+   with one root — within an explicit bound (size of the tree + anchors not yet open x (size of the largest anchored
+   node + 1)), never reaching Go's nil node; and what it returns does not depend on the fuel.  [env] lists the anchored
+   nodes, B bounds their size. *)
+Theorem C13_yaml_node_decoder_terminates : forall env B, env_ok env B -> forall fuel open n,
+  shaped env n -> ysize n + unopened env open * S B < fuel -> dcheck fuel env open n = true.
+Proof. exact decode_terminates. Qed.
+Print Assumptions C13_yaml_node_decoder_terminates.
+Theorem C13_yaml_node_decoder_fuel_independent : forall env fuel open n,
+  dcheck fuel env open n = true -> forall g, fuel <= g -> decode g env open n = decode fuel env open n.
+Proof. exact decode_fuel_independent. Qed.
+Print Assumptions C13_yaml_node_decoder_fuel_independent.
+
+(* non-vacuity: "&a [*a, {k: *a}]" (an alias into its own anchor: an empty scalar there), "x: &b {k: v}" / "y: *b" (a copy),
+   the zero node *)
+Example C13_yaml_node_ex :
+  let self := YDoc [YAnch 0 (YSeq [YAlias 0; YMap [("k"%string, YAlias 0)]])] in
+  let copy := YDoc [YMap [("x"%string, YAnch 0 (YMap [("k"%string, YScalar "v")])); ("y"%string, YAlias 0)]] in
+  decode_root 20 self = Lst [Leaf (SStr ""); Con [("k"%string, Leaf (SStr ""))]] /\
+  decode_root 20 copy = Con [("x"%string, Con [("k"%string, Leaf (SStr "v"))]); ("y"%string, Con [("k"%string, Leaf (SStr "v"))])] /\
+  decode_root 20 YZero = Leaf (SStr "") /\ dcheck 20 (anchors self) [] self = true.
 Proof. vm_compute. repeat split; reflexivity. Qed.
